@@ -13,6 +13,7 @@ struct Ctx {
   std::vector<std::unique_ptr<JsonDocument>> docs;
   std::vector<JsonVariant> handles;
   std::deque<std::string> pool;     // storage kept alive for linked strings
+  size_t opcount = 0;               // selects among equivalent API entry points
   std::deque<std::vector<char>> pool2;
   int kind = 0;
 };
@@ -64,6 +65,7 @@ static std::string runOp(Ctx& c, const std::vector<std::string>& a) {
   };
   auto bindRes = [&](const std::string& s, JsonVariant v) { H(s) = v; return std::string(v.isUnbound() ? "unbound" : "bound"); };
   const std::string& op = a[0];
+  size_t alias = c.opcount++;   // selects among equivalent API entry points (see rmidx / rmkey / getelem / getmember)
   if (op == "set") return setScalar(c, H(a[1]), a[2]) ? "true" : "false";
   if (op == "toarr") { H(a[1]).to<JsonArray>(); return "-"; }
   if (op == "toobj") { H(a[1]).to<JsonObject>(); return "-"; }
@@ -84,15 +86,48 @@ static std::string runOp(Ctx& c, const std::vector<std::string>& a) {
     else { ok = r.add(serialized(unhex(d.substr(1)))); }
     return ok ? "true" : "false";
   }
-  if (op == "getelem") return bindRes(a[3], JsonVariant(H(a[1])[(size_t)std::stoul(a[2])]));
+  if (op == "getelem") {
+    JsonVariant h = H(a[1]);
+    size_t idx = std::stoul(a[2]);
+    if (h.is<JsonArray>() && (alias & 1)) return bindRes(a[3], JsonVariant(h.as<JsonArray>()[idx]));
+    return bindRes(a[3], JsonVariant(h[idx]));
+  }
   if (op == "makeelem") return bindRes(a[3], H(a[1])[(size_t)std::stoul(a[2])].to<JsonVariant>());
   if (op == "setelem") return setScalar(c, H(a[1])[(size_t)std::stoul(a[2])], a[3]) ? "true" : "false";   // r[i] = x
-  if (op == "getmember") { std::string k = unhex(a[2]); return bindRes(a[3], withKey(c, k, [&](auto kk) { return JsonVariant(H(a[1])[kk]); })); }
+  if (op == "getmember") {
+    std::string k = unhex(a[2]);
+    JsonVariant h = H(a[1]);
+    if (h.is<JsonObject>() && (alias & 1)) return bindRes(a[3], withKey(c, k, [&](auto kk) { return JsonVariant(h.as<JsonObject>()[kk]); }));
+    return bindRes(a[3], withKey(c, k, [&](auto kk) { return JsonVariant(h[kk]); }));
+  }
   if (op == "makemember") { std::string k = unhex(a[2]); return bindRes(a[3], withKey(c, k, [&](auto kk) { return H(a[1])[kk].template to<JsonVariant>(); })); }
   if (op == "setmember") { std::string k = unhex(a[2]);
     return withKey(c, k, [&](auto kk) { return setScalar(c, H(a[1])[kk], a[3]); }) ? "true" : "false"; }   // r[k] = x
-  if (op == "rmidx") { H(a[1]).remove((size_t)std::stoul(a[2])); return "-"; }
-  if (op == "rmkey") { std::string k = unhex(a[2]); withKey(c, k, [&](auto kk) { H(a[1]).remove(kk); return 0; }); return "-"; }
+  // the same operation is reached through different entry points of the API (variant, typed reference, iterator),
+  // chosen from the operation counter: the tree model does not distinguish them, the results must not either
+  if (op == "rmidx") {
+    size_t idx = std::stoul(a[2]);
+    JsonVariant h = H(a[1]);
+    if (h.is<JsonArray>() && alias % 3 == 1) h.as<JsonArray>().remove(idx);
+    else if (h.is<JsonArray>() && alias % 3 == 2) {
+      JsonArray arr = h.as<JsonArray>();
+      JsonArray::iterator it = arr.begin();
+      for (size_t i = 0; i < idx && it != arr.end(); i++) ++it;
+      if (it != arr.end()) arr.remove(it);
+    } else h.remove(idx);
+    return "-";
+  }
+  if (op == "rmkey") {
+    std::string k = unhex(a[2]);
+    JsonVariant h = H(a[1]);
+    if (h.is<JsonObject>() && alias % 3 == 1) withKey(c, k, [&](auto kk) { h.as<JsonObject>().remove(kk); return 0; });
+    else if (h.is<JsonObject>() && alias % 3 == 2) {
+      JsonObject obj = h.as<JsonObject>();
+      for (JsonObject::iterator it = obj.begin(); it != obj.end(); ++it)
+        if (std::string(it->key().c_str(), it->key().size()) == k) { obj.remove(it); break; }
+    } else withKey(c, k, [&](auto kk) { h.remove(kk); return 0; });
+    return "-";
+  }
   if (op == "assign") return H(a[1]).set(JsonVariantConst(H(a[2]))) ? "true" : "false";
   if (op == "dclear") { c.docs[std::stoul(a[1])]->clear(); return "-"; }
   if (op == "dcopy") { *c.docs[std::stoul(a[1])] = *c.docs[std::stoul(a[2])]; return "-"; }
